@@ -36,18 +36,28 @@ TARGETS = ("cpp", "csharp", "golang", "java", "jsonschema", "python", "typescrip
 # --------------------------------------------------------------------------- scratch handling
 
 _SCRATCH_ROOT: Optional[pathlib.Path] = None
+_SCRATCH_PID: Optional[int] = None
 _COUNTER = 0
 
 
 def scratch_root() -> pathlib.Path:
-    """A process-wide scratch directory outside /repo and /verif, removed at interpreter exit."""
-    global _SCRATCH_ROOT
-    if _SCRATCH_ROOT is None:
-        base = os.environ.get("VERIF_SCRATCH")
-        if base:
-            pathlib.Path(base).mkdir(parents=True, exist_ok=True)
-        _SCRATCH_ROOT = pathlib.Path(tempfile.mkdtemp(prefix="aasv-mm-", dir=base or None))
-        atexit.register(shutil.rmtree, str(_SCRATCH_ROOT), True)
+    """
+    A per-process scratch directory outside /repo and /verif (under env ``VERIF_SCRATCH`` or the
+    system temp dir), removed at interpreter exit.  A forked child gets its own directory inside
+    the parent's one (so that the parent's clean-up also removes what pool workers leave behind).
+    """
+    global _SCRATCH_ROOT, _SCRATCH_PID
+    pid = os.getpid()
+    if _SCRATCH_ROOT is None or _SCRATCH_PID != pid:
+        if _SCRATCH_ROOT is not None and _SCRATCH_ROOT.exists():
+            _SCRATCH_ROOT = pathlib.Path(tempfile.mkdtemp(prefix=f"child{pid}-", dir=str(_SCRATCH_ROOT)))
+        else:
+            base = os.environ.get("VERIF_SCRATCH")
+            if base:
+                pathlib.Path(base).mkdir(parents=True, exist_ok=True)
+            _SCRATCH_ROOT = pathlib.Path(tempfile.mkdtemp(prefix="aasv-mm-", dir=base or None))
+            atexit.register(shutil.rmtree, str(_SCRATCH_ROOT), True)
+        _SCRATCH_PID = pid
     return _SCRATCH_ROOT
 
 
@@ -128,21 +138,24 @@ def load(source_text: str, scratch_dir: Optional[pathlib.Path] = None) -> Loaded
     encoded yields ``crash:UnicodeEncodeError`` (it could never have been a file).
     """
     t0 = time.time()
-    try:
-        from aas_core_codegen import run
+    from aas_core_codegen import run
 
-        d = scratch_dir if scratch_dir is not None else new_scratch("load")
-        model_path = pathlib.Path(d) / "meta_model.py"
+    d = scratch_dir if scratch_dir is not None else new_scratch("load")
+    model_path = pathlib.Path(d) / "meta_model.py"
+    try:
         model_path.write_text(source_text, encoding="utf-8")
+    except UnicodeEncodeError as e:
+        return Loaded(None, None, crash=crash_name(e), tb="(the text cannot be encoded as UTF-8; harness side)", seconds=time.time() - t0)
+    try:  # only the project's code runs inside this guard: harness bugs must surface as such
         with redirected_tempdir(pathlib.Path(d)):
             pair, error = run.load_model(model_path=model_path, cache_model=False)
-        if pair is not None:
-            return Loaded(pair[0], None, atok=pair[1], seconds=time.time() - t0)
-        return Loaded(None, error, seconds=time.time() - t0)
     except BaseException as e:  # noqa: B902 - the whole point
-        if isinstance(e, KeyboardInterrupt):
+        if isinstance(e, (KeyboardInterrupt, SystemExit)):
             raise
         return Loaded(None, None, crash=crash_name(e), tb=traceback.format_exc(), seconds=time.time() - t0)
+    if pair is not None:
+        return Loaded(pair[0], None, atok=pair[1], seconds=time.time() - t0)
+    return Loaded(None, error, seconds=time.time() - t0)
 
 
 # --------------------------------------------------------------------------- snippets
@@ -150,15 +163,13 @@ def load(source_text: str, scratch_dir: Optional[pathlib.Path] = None) -> Loaded
 _PY_RETURN_DEFAULT = {"bool": "True", "int": "0", "float": "0.0", "str": '""', "bytearray": "bytearray()"}
 
 
-def _python_dummy_signature(args: Any) -> str:
+def _python_dummy_signature(args: Any, method: bool = False) -> str:
     from aas_core_codegen.python import naming as python_naming
 
-    names = []
+    names = ["self"] if method else []
     for a in args:
-        if a.name == "self":
-            names.append("self")
-        else:
-            names.append(f"{python_naming.argument_name(a.name)}: typing.Any")
+        if a.name != "self":
+            names.append(str(python_naming.argument_name(a.name)))
     return ", ".join(names)
 
 
@@ -305,7 +316,7 @@ def snippets_for(target: str, symbol_table: Any, module_name: str = "aasv_dummy"
                 from aas_core_codegen.python import naming as python_naming
 
                 out[f"Types/{n}/{method.name}.py"] = (
-                    f"def {python_naming.method_name(method.name)}({_python_dummy_signature(method.arguments)}) -> typing.Any:\n"
+                    f"def {python_naming.method_name(method.name)}({_python_dummy_signature(method.arguments, method=True)}):  # type: ignore\n"
                     f"    {_python_dummy_return(method.returns)}"
                 )
             else:
@@ -323,7 +334,7 @@ def snippets_for(target: str, symbol_table: Any, module_name: str = "aasv_dummy"
                 from aas_core_codegen.python import naming as python_naming
 
                 out[f"Verification/{fn.name}.py"] = (
-                    f"def {python_naming.function_name(fn.name)}({_python_dummy_signature(fn.arguments)}) -> typing.Any:\n"
+                    f"def {python_naming.function_name(fn.name)}({_python_dummy_signature(fn.arguments)}):  # type: ignore\n"
                     f"    {_python_dummy_return(fn.returns)}"
                 )
             else:
@@ -400,65 +411,66 @@ def generate(
     assert target in TARGETS, target
     t0 = time.time()
     work = new_scratch("gen")
-    used: Dict[str, str] = {}
-    try:
-        import aas_core_codegen.main as main
+    import aas_core_codegen.main as main
 
-        model_path = work / "meta_model.py"
-        model_path.write_text(source_text, encoding="utf-8")
-        if snippets is None:
-            if symbol_table is None:
-                symbol_table = load(source_text, scratch_dir=work).symbol_table
-            used = snippets_for(target, symbol_table, module_name=module_name)
-        else:
-            used = dict(snippets)
-            discover = False
-        tmp = cache_dir if cache_dir is not None else work / "tmp"
-        pathlib.Path(tmp).mkdir(parents=True, exist_ok=True)
-        out_dir = pathlib.Path(out_dir)
-        target_enum = main.Target(target)
-        for attempt in range(4):
-            snippets_dir = work / f"snippets{attempt}"
-            _write_snippets(snippets_dir, used)
-            stdout, stderr = io.StringIO(), io.StringIO()
-            with redirected_tempdir(pathlib.Path(tmp)):
+    model_path = work / "meta_model.py"
+    model_path.write_text(source_text, encoding="utf-8")
+    used: Dict[str, str]
+    if snippets is None:
+        if symbol_table is None:
+            symbol_table = load(source_text, scratch_dir=work).symbol_table
+        used = snippets_for(target, symbol_table, module_name=module_name)
+    else:
+        used = dict(snippets)
+        discover = False
+    tmp = pathlib.Path(cache_dir) if cache_dir is not None else work / "tmp"
+    tmp.mkdir(parents=True, exist_ok=True)
+    out_dir = pathlib.Path(out_dir)
+    target_enum = main.Target(target)
+    attempt = 0
+    while True:
+        snippets_dir = work / f"snippets{attempt}"
+        _write_snippets(snippets_dir, used)
+        stdout, stderr = io.StringIO(), io.StringIO()
+        try:  # only the project's code runs inside this guard
+            with redirected_tempdir(tmp):
                 rc = main.execute(
                     main.Parameters(model_path=model_path, target=target_enum, snippets_dir=snippets_dir, output_dir=out_dir),
                     stdout=stdout,
                     stderr=stderr,
                 )
-            if rc != 0 and discover and attempt < 3:
-                missing = [k for k in missing_snippet_keys(stderr.getvalue()) if k not in used]
-                if missing:
-                    for k in missing:
-                        used[k] = "// DUMMY IMPLEMENTATION"
-                    continue
-            return Result(rc, stdout.getvalue(), stderr.getvalue(), seconds=time.time() - t0, snippets=used, out_dir=out_dir)
-        raise AssertionError("unreachable")
-    except BaseException as e:  # noqa: B902
-        if isinstance(e, KeyboardInterrupt):
-            raise
-        return Result(None, "", "", exception=crash_name(e), traceback=traceback.format_exc(),
-                      seconds=time.time() - t0, snippets=used, out_dir=pathlib.Path(out_dir))
+        except BaseException as e:  # noqa: B902
+            if isinstance(e, (KeyboardInterrupt, SystemExit)):
+                raise
+            return Result(None, stdout.getvalue(), stderr.getvalue(), exception=crash_name(e), traceback=traceback.format_exc(),
+                          seconds=time.time() - t0, snippets=used, out_dir=out_dir)
+        if rc != 0 and discover and attempt < 3:
+            missing = [k for k in missing_snippet_keys(stderr.getvalue()) if k not in used]
+            if missing:
+                for k in missing:
+                    used[k] = "// DUMMY IMPLEMENTATION"
+                attempt += 1
+                continue
+        return Result(rc, stdout.getvalue(), stderr.getvalue(), seconds=time.time() - t0, snippets=used, out_dir=out_dir)
 
 
 def smoke(source_text: str) -> Result:
     """Run ``aas_core_codegen.smoke.main.execute`` in-process on the text; never raises."""
     t0 = time.time()
     work = new_scratch("smoke")
-    try:
-        import aas_core_codegen.smoke.main as smoke_main
+    import aas_core_codegen.smoke.main as smoke_main
 
-        model_path = work / "meta_model.py"
-        model_path.write_text(source_text, encoding="utf-8")
-        stdout, stderr = io.StringIO(), io.StringIO()
+    model_path = work / "meta_model.py"
+    model_path.write_text(source_text, encoding="utf-8")
+    stderr = io.StringIO()
+    try:  # only the project's code runs inside this guard
         with redirected_tempdir(work):
             rc = smoke_main.execute(model_path=model_path, stderr=stderr)
-        return Result(rc, stdout.getvalue(), stderr.getvalue(), seconds=time.time() - t0)
     except BaseException as e:  # noqa: B902
-        if isinstance(e, KeyboardInterrupt):
+        if isinstance(e, (KeyboardInterrupt, SystemExit)):
             raise
-        return Result(None, "", "", exception=crash_name(e), traceback=traceback.format_exc(), seconds=time.time() - t0)
+        return Result(None, "", stderr.getvalue(), exception=crash_name(e), traceback=traceback.format_exc(), seconds=time.time() - t0)
+    return Result(rc, "", stderr.getvalue(), seconds=time.time() - t0)
 
 
 # --------------------------------------------------------------------------- Python SDK
@@ -584,3 +596,85 @@ def load_python_sdk(source_text: str, scratch_dir: Optional[pathlib.Path] = None
     finally:
         sdk.seconds = time.time() - t0
     return sdk
+
+
+# --------------------------------------------------------------------------- expression round trip
+
+
+def expr_from_project_tree(node: Any) -> Any:
+    """
+    Convert a node of ``aas_core_codegen.parse.tree`` into the corresponding
+    ``harness.mm_model`` expression / statement (the inverse direction of ``render_expr``
+    followed by the project's parser).  Used to check that the renderer is faithful and by
+    properties that compare the parsed invariant with the abstract one.
+    """
+    from aas_core_codegen.parse import tree as T
+
+    from harness import mm_model as M
+
+    go = expr_from_project_tree
+    ops = {T.Comparator.LT: "<", T.Comparator.LE: "<=", T.Comparator.GT: ">", T.Comparator.GE: ">=", T.Comparator.EQ: "==", T.Comparator.NE: "!="}
+    if isinstance(node, T.Member):
+        return M.Member(go(node.instance), str(node.name))
+    if isinstance(node, T.Index):
+        return M.Index(go(node.collection), go(node.index))
+    if isinstance(node, T.Comparison):
+        return M.Comparison(go(node.left), ops[node.op], go(node.right))
+    if isinstance(node, T.IsIn):
+        return M.IsIn(go(node.member), go(node.container))
+    if isinstance(node, T.Implication):
+        return M.Implication(go(node.antecedent), go(node.consequent))
+    if isinstance(node, T.MethodCall):
+        return M.MethodCall(go(node.member), tuple(go(a) for a in node.args))
+    if isinstance(node, T.FunctionCall):
+        return M.FunctionCall(str(node.name.identifier), tuple(go(a) for a in node.args))
+    if isinstance(node, T.Name):
+        return M.Name(str(node.identifier))
+    if isinstance(node, T.Constant):
+        return M.Constant(node.value)
+    if isinstance(node, T.IsNone):
+        return M.IsNone(go(node.value))
+    if isinstance(node, T.IsNotNone):
+        return M.IsNotNone(go(node.value))
+    if isinstance(node, T.Not):
+        return M.Not(go(node.operand))
+    if isinstance(node, T.And):
+        return M.And(tuple(go(v) for v in node.values))
+    if isinstance(node, T.Or):
+        return M.Or(tuple(go(v) for v in node.values))
+    if isinstance(node, T.Add):
+        return M.Add(go(node.left), go(node.right))
+    if isinstance(node, T.Sub):
+        return M.Sub(go(node.left), go(node.right))
+    if isinstance(node, T.JoinedStr):
+        return M.JoinedStr(tuple(v if isinstance(v, str) else go(v.value) for v in node.values))
+    if isinstance(node, T.ForEach):
+        return M.ForEach(str(node.variable.identifier), go(node.iteration))
+    if isinstance(node, T.ForRange):
+        return M.ForRange(str(node.variable.identifier), go(node.start), go(node.end))
+    if isinstance(node, T.Any):
+        return M.Any_(go(node.generator), go(node.condition))
+    if isinstance(node, T.All):
+        return M.All(go(node.generator), go(node.condition))
+    if isinstance(node, T.Assignment):
+        assert isinstance(node.target, T.Name)
+        return M.Assign(str(node.target.identifier), go(node.value))
+    if isinstance(node, T.Return):
+        return M.Return(go(node.value))
+    raise TypeError(f"unexpected project tree node: {node!r}")
+
+
+def parse_expr(text: str) -> Any:
+    """
+    Parse expression source text with CPython's ``ast`` and the project's rule chain
+    (``parse._rules.ast_node_to_our_node``) and return it as a ``harness.mm_model`` expression;
+    raises ``ValueError`` with the project's error message if the rules reject it.
+    """
+    import ast
+
+    from aas_core_codegen.parse import _rules
+
+    node, error = _rules.ast_node_to_our_node(ast.parse(text, mode="eval").body)
+    if error is not None:
+        raise ValueError(str(error.message))
+    return expr_from_project_tree(node)
